@@ -340,7 +340,8 @@ class FAMachine:
             s = a.IndexAsScalar(ci, ObtainQuantity(vu, a.GetCategory())) if withq else a.IndexAsScalar(ci)
             tu = vu if withq else a.GetUnit()
             want = db.Convert(qt, a.GetUnit(), tu, float(list(a.GetValues())[i]))
-            if not isinstance(s, Scalar) or s.GetUnit() != tu or not core.close(s.GetValue(), want, self.um.conv_scale(a.GetUnit(), tu, float(list(a.GetValues())[i])), 1e-12):
+            both_nan = want != want and s.GetValue() != s.GetValue()  # (an infinite element: inf through an affine formula)
+            if not isinstance(s, Scalar) or s.GetUnit() != tu or not (both_nan or core.close(s.GetValue(), want, self.um.conv_scale(a.GetUnit(), tu, float(list(a.GetValues())[i])), 1e-12)):
                 self.fail("index_as_scalar_wrong", "IndexAsScalar(%d) of %r in %r gave %r, expected %r %s" % (ci, a, tu, s, want, tu))
             if snapshot.value_object(a) != snap:
                 self.fail("source_changed:IndexAsScalar", "IndexAsScalar changed %r" % a)
